@@ -37,6 +37,9 @@ type Scenario struct {
 	// Shared is set when the threads legitimately influence each other's results (a shared
 	// sampler): the differential per-thread oracle is then off and Check decides.
 	Shared bool
+	// DiffClass, when set, classifies HOW an observable differs from its sequential reference
+	// (e.g. "response+client"); the class becomes part of the differential signature.
+	DiffClass func(got, want string) string
 	// Check is evaluated single-threaded after every complete schedule. It returns "" when
 	// the invariant holds, otherwise "class: details" (the class goes into the signature).
 	Check func(env any, results []any) string
